@@ -38,7 +38,7 @@ func (o Op) String() string {
 	switch o.K {
 	case "sub", "subw", "mark", "unmark":
 		return o.K + "(" + o.L + ")"
-	case "cleand", "reloadd":
+	case "cleand", "reloadd", "grow", "growside":
 		return fmt.Sprintf("%s(%d)", o.K, o.D)
 	}
 	return o.K
@@ -267,6 +267,51 @@ func (w *World) Apply(op Op) *Step {
 					w.Anomalies = append(w.Anomalies, "accepted header with unaccepted parent: "+u.Label)
 				}
 			}
+		}
+	case "grow", "growside":
+		// grow: extend the reported best chain by D unit-work headers; growside: extend the heaviest
+		// leaf that is not on the reported best chain by D double-work headers (so that a side branch
+		// overtakes). Both reach taller trees than the bound on single submissions allows.
+		tip := w.Tree.Get(RH(w.tipHash()))
+		label := "G"
+		slot := "a"
+		if tip != nil {
+			label = tip.Label
+		}
+		if op.K == "growside" {
+			slot = "H"
+			var best *ref.Node
+			for _, n := range w.Tree.Sorted() {
+				if !w.Tree.IsLeaf(n) || (tip != nil && tip.HasAncestorOrSelf(n.Hash)) {
+					continue
+				}
+				if best == nil || n.Work.Cmp(best.Work) > 0 {
+					best = n
+				}
+			}
+			if best == nil {
+				break
+			}
+			label = best.Label
+		}
+		for i := 0; i < op.D; i++ {
+			label += "/" + slot
+			for w.Submitted[label] {
+				label += "2"
+			}
+			u := Get(label)
+			hc := u.Header.Copy()
+			err, p := Safe(func() error { return w.Repo.ProcessHeader(w.Ctx, &hc) })
+			w.Submitted[label] = true
+			if p != "" {
+				st.Panic = p
+				break
+			}
+			if err != nil {
+				st.Err = err.Error()
+				break
+			}
+			w.Tree.Add(RH(u.Hash), RH(u.Header.PrevBlock), u.Header.Bits, u.Label)
 		}
 	case "clean":
 		w.notePrune(10000)
